@@ -295,6 +295,13 @@ func onlyBytes(fm *Frame) error {
 	defer func() { <-valuesDone }()
 
 	_, err := io.Copy(fm.ByteOutput(), fm.InputFile())
+	if err != nil {
+		// The output is gone (or broken). Keep consuming the byte input, like
+		// the value input is being consumed above; otherwise the writer of
+		// our input blocks on a full pipe forever while we wait for it to
+		// close the value channel.
+		_, _ = io.Copy(blackholeWriter{}, fm.InputFile())
+	}
 	return err
 }
 
@@ -311,13 +318,17 @@ func onlyValues(fm *Frame) error {
 
 	// Forward values.
 	out := fm.ValueOutput()
+	var errOut error
 	for v := range fm.InputChan() {
-		err := out.Put(v)
-		if err != nil {
-			return err
+		// After an output error (typically because the reader is gone), keep
+		// consuming the value input, like the byte input is being consumed
+		// above; otherwise the writer of our input blocks on a full channel
+		// forever while we wait for it to close the byte pipe.
+		if errOut == nil {
+			errOut = out.Put(v)
 		}
 	}
-	return nil
+	return errOut
 }
 
 type blackholeWriter struct{}
